@@ -12,7 +12,7 @@ NAMES = ["a", "b", "c", "d", "e", "f", "g", "h", "\u00e9", "\u65e5\u672c", "x y"
 PLAIN_NAMES = 8          # the first names are plain ASCII letters
 
 TEXTS = ["", "A\n", "B\n", "no newline", "l1\nl2\n", "éè\n", "\r\n", " \n", "x" * 40 + "\n", "\x00\x01bin\xff"]
-TARGETS = ["a", "../up", "té", "é", "d/x y", "w ", "日"]
+TARGETS = ["a", "../up", "t\u00e9", "e\u0301", "d/x y", "w ", "\u65e5", "/abs/\u00c5"]
 IDENTS = ["Joe <joe@x.org>", "Jöe Blöggs <jöe@x.org>", "joe@x.org", "Joe", "Joe é <j@x>",
           "日本 <n@x.jp>", "Ann Other <ann@y>",
           # idents that parseaddr / the stream syntax normalise
